@@ -298,6 +298,7 @@ def _merge(a, b):
 
 _LOGIC = {}
 _VALIDATE_EVERY = {}
+_PRECHECK = {}
 
 
 def run_path(fn, prefix, st, timeout_ms, name):
@@ -343,7 +344,7 @@ def run_path(fn, prefix, st, timeout_ms, name):
                 st["discharged"] += 1
                 continue
             rr = None
-            if not z3.is_false(c):
+            if not z3.is_false(c) and _PRECHECK.get(name, False):
                 # an obligation that is valid on its own (without the path condition) is valid on the path
                 s0 = z3.Solver()
                 s0.set("timeout", 3000)
@@ -446,12 +447,13 @@ def _task(arg):
     return st, work
 
 
-def explore(fn, name, workers=None, timeout_ms=20000, max_paths=None, budget_s=None, chunk_paths=25, chunk_s=20.0, logic="lira", validate_every=1):
+def explore(fn, name, workers=None, timeout_ms=20000, max_paths=None, budget_s=None, chunk_paths=25, chunk_s=20.0, logic="lira", validate_every=1, precheck=False):
     """Explore all paths of fn.  Returns merged statistics; st['truncated'] tells whether a budget cut the search."""
     workers = workers or min(16, os.cpu_count() or 1)
     _FN[name] = fn
     _LOGIC[name] = logic
     _VALIDATE_EVERY[name] = validate_every
+    _PRECHECK[name] = precheck
     total = _new_stats()
     total["truncated"] = False
     t0 = time.time()
